@@ -126,8 +126,15 @@ def make_random_system(seed, num_wann=2, nRvec=8, max_R=2, real_lattice=None, be
         s = wb.System_R.from_random(num_wann=num_wann, nRvec=nRvec, real_lattice=np.array(real_lattice, dtype=float),
                                     max_R=max_R, berry=berry, morb=morb, spin=spin, silent=True,
                                     periodic=tuple(periodic))
-        for key in list(s._XX_R.keys()):
-            s.set_R_mat(key, s.get_R_mat(key), Hermitian=True, reset=True)
+        # from_random fills the matrices while iterating over a *set of strings* (order depends on PYTHONHASHSEED):
+        # regenerate them in sorted key order from our own generator so that the system is a function of `seed` only
+        rs = np.random.RandomState(seed + 7919)
+        for key in sorted(s._XX_R.keys()):
+            shape = s.get_R_mat(key).shape
+            X = rs.random_sample(shape) + 1j * rs.random_sample(shape)
+            if key == "AA":
+                X[s.rvec.iR0, s.range_wann, s.range_wann] = 0
+            s.set_R_mat(key, X, Hermitian=True, reset=True)
         if double_spin:
             s.double_spin()
             if random_spin:
@@ -148,8 +155,13 @@ class GField:
 
     def __init__(self, seed, ncomp=1, nterms=5, nmax=2, pointgroup=None):
         rs = np.random.RandomState(seed)
+        nterms = max(nterms, 4)
         self.n = rs.randint(-nmax, nmax + 1, size=(nterms, 3))
+        # the three unit vectors are always present (with generic phases): otherwise all n_z may happen to be
+        # even and k_z=0 / k_z=1/2 planes carry identical values - exact ties in the refinement criteria
         self.n[0] = (1, 0, 0)
+        self.n[1] = (0, 1, 0)
+        self.n[2] = (0, 0, 1)
         self.A = rs.uniform(0.3, 1.0, size=(ncomp, nterms))
         self.phi = rs.uniform(0, 2 * np.pi, size=(ncomp, nterms))
         self.c0 = rs.uniform(0.5, 1.5, size=ncomp)
@@ -265,7 +277,9 @@ class SteerCalc(Calculator):
         else:                              # random: value from a hash of the K-point
             h = np.sin(self.salt % 1000 + 12.9898 * K[0] + 78.233 * K[1] + 37.719 * K[2] + 0.618 * lev) * 43758.5453
             v = 0.1 + (h - np.floor(h))
-        return EnergyResult(np.array([0.0]), np.array([v], dtype=float), transformTR=transform_ident,
+        # two energies, so that none of the three refinement criteria (max, norm, norm of the derivative) is
+        # identically zero: a zero criterion ties all K-points and selects by list position
+        return EnergyResult(np.array([0.0, 1.0]), np.array([v, 0.618 * v], dtype=float), transformTR=transform_ident,
                             transformInv=transform_ident, save_mode="", rank=0, comment="steer")
 
 
